@@ -48,7 +48,7 @@ RULE = ("sub-case = (class, configuration) drawn from the case rng: (i) a random
         "the empty class itself, generator returned > 0 grid points, valid base accepted before the corruption was "
         "applied, exponent actually above/below alpha_max as intended, driver reached a C entry point); distinct = "
         "distinct (case, class, kind/config, draw) key")
-MIN_NONTRIVIAL = {"quick": 330, "thorough": 3300}
+MIN_NONTRIVIAL = {"quick": 600, "thorough": 5000}
 ASSUMPTIONS = [
     "an invalid configuration is ACCEPTED only if the constructor and the smallest standard uses consuming the field "
     "(settings: nfeat/get_feat_usps/ueg_vector/get_reasonable_normalizer[/plan.get_feat]; plans: eval_feat_exp, "
@@ -196,7 +196,7 @@ def gen_cases(tier, seed):
     for i in range(1 * m):
         add("asan-shape-eval", "asan-shape-eval", variant="asan", weight=3.0)
         add("asan-shape-nldf", "asan-shape-nldf", variant="asan", weight=8.0, mol=["HF", "Li", "LiH"][i % 3],
-            version=["j", "i", "k", "ij"][i % 4], plan_type=["gaussian", "spline"][i % 2])
+            version=["j", "i", "k", "ij"][i % 4], plan_type=["gaussian", "spline"][i % 2], level=["GGA", "MGGA"][(i // 2) % 2 if i else 0])
     unsafe = [(c, k) for c in EVAL_CLASSES for k in UNSAFE_KINDS]
     if q:
         unsafe = [u for u in unsafe if u[0] == "RBFEvaluator" or u[1] in ("X1ctrl-wider-than-kernel", "alpha-shorter-than-X1ctrl")]
@@ -358,7 +358,7 @@ def finalize(results, coverage):
     obs = {}
     for r in results:
         for v in (r.get("tags") or {}).get("answer", []):
-            k, _, a = str(v).partition("=")
+            k, _, a = str(v).rpartition("=")
             cat.setdefault(k, {})
             cat[k][a] = cat[k].get(a, 0) + 1
         for v in (r.get("tags") or {}).get("observation", []):
@@ -844,10 +844,18 @@ def _sdmx_generators(rec, rng, n, keypfx, mols=None):
     from ciderpress.pyscf import sdmx_slow
     from vlib import gen
     sample = None
-    for j in range(n):
+    for j in range(n + 1):
         kind = SDMX_KINDS[j % len(SDMX_KINDS)]
         kw = _kw_sdmx(kind, rng)
+        if j == n:
+            # the documented fourth count (H^1d terms) without any H^1 term: EXXSphGenerator.has_l1 looks at n1terms only
+            kind = "sdmxfull"
+            pw = _pows(rng)
+            kw = {"settings_dict": {_pick(rng, [1.0, 1.5, 2.0]): (pw, [int(rng.integers(0, len(pw) + 1)), int(rng.integers(0, len(pw) + 1)), 0, int(rng.integers(1, len(pw) + 1))])}}
         s = _mk_sdmx(kind, kw)
+        variant = ""
+        if kind == "sdmxfull" and s.n1terms == 0 and s.n1dterms > 0:
+            variant = ":n1d-terms-without-n1-terms"
         nspin = 1 + (j // len(SDMX_KINDS) + j) % 2
         mname = (mols or ["HF", "He", "LiH"] if nspin == 1 else mols or ["NH2", "Li", "H"])[j % 3]
         mol = gen.make_mol(mname, _pick(rng, ["sto-3g", "6-31g"]), rng, jitter=0.03)
@@ -855,9 +863,15 @@ def _sdmx_generators(rec, rng, n, keypfx, mols=None):
         ng = int(rng.choice([1, 2, 57, 256]))
         coords = np.ascontiguousarray(rng.normal(size=(ng, 3)) * 1.5)
         for mod, mname2 in ((sdmx_fast, "fast"), (sdmx_slow, "slow")):
-            g = mod.EXXSphGenerator.from_settings_and_mol(s, nspin, mol)
-            f = np.asarray(g.get_features(dm, mol, coords))
             want = (s.nfeat, ng) if nspin == 1 else (2, s.nfeat, ng)
+            try:
+                g = mod.EXXSphGenerator.from_settings_and_mol(s, nspin, mol)
+                f = np.asarray(g.get_features(dm, mol, coords))
+            except Exception as ex:  # noqa: BLE001 - a valid settings object for which the generator produces nothing
+                rec.require("generator_rows[EXXSphGenerator]", False,
+                            mechanism="EXXSphGenerator.get_features:raises-on-valid-settings[%s%s]" % (SDMX_CLS[kind], variant),
+                            detail={"kwargs": str(kw), "implementation": mname2, "nfeat": int(s.nfeat), "exception": "%s: %s" % (type(ex).__name__, str(ex)[:160])})
+                continue
             rec.require("generator_rows[EXXSphGenerator]", f.shape == want, mechanism="EXXSphGenerator[%s].get_features:rows!=nfeat[%s]" % (mname2, SDMX_CLS[kind]),
                         detail={"kwargs": str(kw), "shape": list(f.shape), "want": list(want)})
             if mname2 == "fast":
@@ -924,6 +938,11 @@ def _descriptors(rec, rng, spin, n, keypfx, with_orbs=False):
             with contextlib.redirect_stdout(io.StringIO()):
                 d = get_descriptors(ana, s, **kwargs)
         except Exception as ex:  # noqa: BLE001
+            if label == "SDMXFullSettings" and s.n1terms == 0 and s.n1dterms > 0:
+                rec.require("generator_rows[EXXSphGenerator]", False,
+                            mechanism="EXXSphGenerator.get_features:raises-on-valid-settings[SDMXFullSettings:n1d-terms-without-n1-terms]",
+                            detail={"via": "get_descriptors", "exception": "%s: %s" % (type(ex).__name__, str(ex)[:160])})
+                continue
             rec.note("valid_call_raised[%s|%d]" % (label, j), "%s: %s" % (type(ex).__name__, str(ex)[:300]))
             rec.set_inconclusive("get_descriptors raised %s for valid %s" % (type(ex).__name__, label))
             continue
@@ -1067,7 +1086,11 @@ def _c_fparams(op):
         bad = _bad_param_list(core, op, kw, rng)
         if bad is None:
             return None
-        kw[fp][k] = bad + ([p[-1]] if erf and op not in ("too-many", "empty") else [])
+        if erf and op == "too-many":
+            bad = list(p) + bad[len(core):]  # keep erf_mul, then the surplus entries
+        elif erf and op != "empty":
+            bad = bad + [p[-1]]
+        kw[fp][k] = bad
         return good, kw
     return f
 
@@ -2121,7 +2144,7 @@ def _run_asan_shape_eval(case, rec, rng):
 def _run_asan_shape_nldf(case, rec, rng):
     from ciderpress.pyscf.nldf_convolutions import PyscfNLDFGenerator
     ver = case["version"]
-    level = _pick(rng, ["GGA", "MGGA"])
+    level = case.get("level") or _pick(rng, ["GGA", "MGGA"])
     kws = _kw_nldf(ver, rng, level=level, safe=True)
     s = _mk_nldf(ver, kws)
     mol, g, pn = _grid_ctx(rng, case["mol"], 6)
